@@ -147,6 +147,18 @@ package jt808
 //@   ensures C02.plainid: old(noesc(data)) && result == nil ==> j.Header.ID == old(be16(data, 1)) && j.Header.Property.attribute == old(be16(data, 3))
 //@   ensures C02.plainserial: old(noesc(data)) && result == nil ==> j.Header.SerialNumber == old(be16(data, 1 + hbase(data[1:len(data)-1]) - 2))
 //@   ensures C02.plainverify: old(noesc(data)) && result == nil ==> j.VerifyCode == old(data[len(data)-2])
+// The general case (frames with escapes): u is the unescaped text, which exists only inside Decode. A caller learns that
+// there is a byte string u related to the frame by unescape's content clause, that the frame is accepted exactly when u
+// passes the XOR, header and length checks, and that every decoded field is read from u.
+//@   ghost u: unescape result0
+//@   ensures C01.u.len: old(w1(data) && w2(data)) ==> len(u) == len(data) - 2 - old(ec(data, len(data)-2))
+//@   ensures C01.u.content: old(w1(data) && w2(data)) ==> forall(k, 1, len(data)-1, !old(esec(data, k)) ==> u[k-1-old(ec(data,k))] == old(etok(data, k)))
+//@   ensures C01.u.iff: old(w1(data) && w2(data)) ==> iff(result == nil, utils.xorfold(u, len(u)) == 0 && len(u) >= 4 && len(u) >= hlen(u) && len(u) == hlen(u) + blen(u) + 1)
+//@   ensures C01.u.id: result == nil ==> j.Header.ID == be16(u, 0) && j.Header.Property.attribute == be16(u, 2)
+//@   ensures C01.u.serial: result == nil ==> j.Header.SerialNumber == be16(u, hbase(u) - 2)
+//@   ensures C01.u.proto: result == nil ==> j.Header.ProtocolVersion == ite(is2019(u), byte(3), byte(2))
+//@   ensures C01.u.bcd: result == nil ==> ptr(j.Header.bcdTerminalPhoneNo) == ptr(u) + ite(is2019(u), 5, 4) && len(j.Header.bcdTerminalPhoneNo) == ite(is2019(u), 10, 6)
+//@   ensures C01.u.body: result == nil ==> ptr(j.Body) == ptr(u) + hlen(u) && len(j.Body) == blen(u) && j.VerifyCode == u[len(u)-1]
 //@   ensures C09.own: result == nil ==> within(j.Body, data) || fresh(j.Body)
 //@   ensures C09.ownbcd: result == nil ==> within(j.Header.bcdTerminalPhoneNo, data) || fresh(j.Header.bcdTerminalPhoneNo)
 //@   ensures input: forall(k, 0, len(data), data[k] == old(data[k]))
@@ -193,6 +205,25 @@ package jt808
 //@   precall escape C01.phone: old(encdom(h, len(body))) ==> (sameBytes(arg0[4 + old(v19(h)) : 4 + old(v19(h)) + old(len(h.bcdTerminalPhoneNo))], old(h.bcdTerminalPhoneNo)))
 //@   precall escape C01.body: old(encdom(h, len(body))) ==> (sameBytes(arg0[6 + old(v19(h)) + old(len(h.bcdTerminalPhoneNo)) : 6 + old(v19(h)) + old(len(h.bcdTerminalPhoneNo)) + len(body)], old(body)))
 //@   precall append#5 C01.xor: old(encdom(h, len(body))) ==> (arg1[0] == utils.xorfold(arg0, len(arg0)))
+// The payload (the argument of escape) exists only inside Encode; the ghost name lets the postcondition describe it, and
+// callers learn that such a byte string exists: result is its escaped image, and it has the layout of the statement.
+//@   ghost pre: CreateVerifyCode arg0
+//@   ghost payload: escape arg0
+//@   postuse xcong(payload, pre)
+//@   postuse link(payload, result)
+//@   postuse prev(payload, result)
+//@   postuse scMono(payload)
+//@   postuse scBound(payload)
+//@   postuse ecBound(result)
+//@   ensures C01.esc: escpost(payload, result)
+//@   ensures C01.paylen: old(encdom(h, len(body))) ==> len(payload) == 7 + old(v19(h)) + old(len(h.bcdTerminalPhoneNo)) + len(body)
+//@   ensures C01.payhead: old(encdom(h, len(body))) ==> hdr4(payload, old(encid(h)), old(encattr(h, len(body))), old(v19(h))) && be16(payload, 4 + old(v19(h)) + old(len(h.bcdTerminalPhoneNo))) == old(h.PlatformSerialNumber)
+//@   ensures C01.payphone: old(encdom(h, len(body))) ==> sameBytes(payload[4 + old(v19(h)) : 4 + old(v19(h)) + old(len(h.bcdTerminalPhoneNo))], old(h.bcdTerminalPhoneNo))
+//@   ensures C01.paybody: old(encdom(h, len(body))) ==> sameBytes(payload[6 + old(v19(h)) + old(len(h.bcdTerminalPhoneNo)) : 6 + old(v19(h)) + old(len(h.bcdTerminalPhoneNo)) + len(body)], body)
+//@   ensures C01.paypre: old(encdom(h, len(body))) ==> len(payload) == len(pre) + 1 && forall(i, 0, len(pre), payload[i] == pre[i])
+//@   ensures C01.paylast: old(encdom(h, len(body))) ==> payload[len(pre)] == utils.xorfold(pre, len(pre))
+//@   ensures C01.payxor1: old(encdom(h, len(body))) ==> utils.xorfold(payload, len(payload)-1) == payload[len(payload)-1]
+//@   ensures C01.payxor: old(encdom(h, len(body))) ==> utils.xorfold(payload, len(payload)) == 0
 
 //@ func NewJTMessage
 //@   mode contract
@@ -218,6 +249,8 @@ package jt808
 //@ lemma link(d []byte, e []byte, i int): escpost(d, e) && 0 <= i && i <= len(d) ==> ec(e, 1+i+sc(d,i)) == sc(d,i) by induction i from 0 trigger sc(d, i)
 // the byte before the image of input position i is never an escape lead (it is a delimiter, a plain byte or a code)
 //@ lemma prev(d []byte, e []byte, i int): escpost(d, e) && 0 <= i && i <= len(d) ==> i == 0 || e[i+sc(d,i)] != 0x7d by induction i from 0 trigger sc(d, i)
+// the XOR fold depends only on the bytes
+//@ lemma xcong(a []byte, b []byte, k int): 0 <= k && k <= len(a) && k <= len(b) && forall(i, 0, k, a[i] == b[i]) ==> utils.xorfold(a, k) == utils.xorfold(b, k) by induction k from 0 trigger utils.xorfold(a, k)
 // the count of special bytes is monotone
 //@ lemma scMono(d []byte, j int): forall(i, 0, j+1, sc(d, i) <= sc(d, j)) by induction j from 0 trigger sc(d, j)
 //@ func rtUnescape
@@ -227,16 +260,67 @@ package jt808
 //@   use link(d, e)
 //@   use prev(d, e)
 //@   use scMono(d)
-//@   focus inverse: in link prev scMono content len iff scBound ecBound
+//@   focus pos: in scMono scBound
+//@   focus cnt: in link prev scBound
+//@   focus tok: in pos scBound
+//@   focus inverse: pos cnt tok content len iff scBound
 //@   focus len: in link prev scMono content iff scBound ecBound
 //@   focus ok: in link prev scMono iff scBound ecBound
 //@   use scBound(d)
 //@   use ecBound(e)
 //@   ensures C01.ok: result1 == nil
 //@   ensures C01.len: result1 == nil ==> len(result0) == len(d)
+// stepping stones: where input byte i lands, that it starts a token there, how many escape leads precede it, which token it is
+//@   ensures C01.pos: forall(i, 0, len(d), 1+i+sc(d,i) <= len(e)-2 && (special(d[i]) ==> 2+i+sc(d,i) <= len(e)-2))
+//@   ensures C01.cnt: forall(i, 0, len(d), !esec(e, 1+i+sc(d,i)) && ec(e, 1+i+sc(d,i)) == sc(d,i))
+//@   ensures C01.tok: forall(i, 0, len(d), etok(e, 1+i+sc(d,i)) == d[i])
 //@   ensures C01.inverse: result1 == nil ==> forall(i, 0, len(d), mention(e[1+i+sc(d,i)]) ==> result0[i] == old(d[i]))
 // the composition on the real functions: unescape(escape(d)) == d for every non-empty d (escape of the empty payload is
 // "7e 7e", which unescape rejects as too short)
+// ---------------------------------------------------------------------------------------------
+// C01 end to end on the real functions: Decode(Encode(h, body)) returns the reply ID, the phone bytes, the protocol
+// version, the platform serial and the body. The domain is the statement's: a header as Header.decode produces it
+// (version flag and protocol version agree, phone of 6 or 10 bytes, one-bit flags) and a body of at most 1023 bytes.
+// p (the payload built inside Encode), e (the frame) and u (the unescaped text inside Decode) are ghosts.
+// ---------------------------------------------------------------------------------------------
+//@ spec rtdom(h *Header, n int) bool = encdom(h, n) && (h.ProtocolVersion == 2 || h.ProtocolVersion == 3) && iff(h.ProtocolVersion == 3, h.Property.Version == 1) && len(h.bcdTerminalPhoneNo) == ite(h.ProtocolVersion == 3, 10, 6)
+//@ func rtMessage
+//@   requires C01.dom: rtdom(h, len(body))
+//@   ghost p: Encode ghost.payload
+//@   ghost e: Decode arg1
+//@   ghost u: Decode ghost.u
+//@   postuse xcong(u, p)
+//@   focus pos: esc scMono scBound paylen dom
+//@   focus cnt: esc link prev scBound paylen dom
+//@   focus tok: esc pos scBound paylen dom
+//@   focus same: pos cnt tok content len syntax scBound
+//@   focus uhead: same len paylen payhead dom
+//@   focus hbase: uhead dom
+//@   focus blen: uhead dom
+//@   focus id: uhead id ok
+//@   focus ok: iff xor len paylen hbase blen dom syntax
+//@   focus userial: same len paylen payhead dom ok id hbase
+//@   focus serial: userial serial ok hbase
+//@   focus phone: same len paylen payhead payphone dom bcd ok id hbase
+//@   focus body: same len paylen payhead paybody dom body ok id hbase
+//@   ensures C01.m.syntax: w1(e) && w2(e)
+//@   ensures C01.m.len: len(u) == len(p)
+//@   ensures C01.m.pos: forall(i, 0, len(p), 1+i+sc(p,i) <= len(e)-2 && (special(p[i]) ==> 2+i+sc(p,i) <= len(e)-2))
+//@   ensures C01.m.cnt: forall(i, 0, len(p), !esec(e, 1+i+sc(p,i)) && ec(e, 1+i+sc(p,i)) == sc(p,i))
+//@   ensures C01.m.tok: forall(i, 0, len(p), etok(e, 1+i+sc(p,i)) == p[i])
+//@   ensures C01.m.same: forall(i, 0, len(p), mention(e[1+i+sc(p,i)]) ==> u[i] == p[i])
+//@   ensures C01.m.xor: utils.xorfold(u, len(u)) == 0
+//@   ensures C01.m.uhead: be16(u, 0) == old(encid(h)) && be16(u, 2) == old(encattr(h, len(body)))
+//@   ensures C01.m.hbase: is2019(u) == (old(v19(h)) == 1) && !isfrag(u) && hbase(u) == 6 + old(v19(h)) + old(len(h.bcdTerminalPhoneNo))
+//@   ensures C01.m.blen: blen(u) == len(body)
+//@   ensures C01.m.ok: result1 == nil
+//@   ensures C01.m.id: result0.Header.ID == old(encid(h))
+//@   ensures C01.m.version: result0.Header.ProtocolVersion == old(h.ProtocolVersion)
+//@   ensures C01.m.userial: be16(u, hbase(u) - 2) == old(h.PlatformSerialNumber)
+//@   ensures C01.m.serial: result0.Header.SerialNumber == old(h.PlatformSerialNumber)
+//@   ensures C01.m.phone: len(result0.Header.bcdTerminalPhoneNo) == old(len(h.bcdTerminalPhoneNo)) && sameBytes(result0.Header.bcdTerminalPhoneNo, old(h.bcdTerminalPhoneNo))
+//@   ensures C01.m.body: len(result0.Body) == len(body) && sameBytes(result0.Body, body)
+
 //@ func rtEscape
 //@   requires C01.nonempty: len(d) >= 1
 //@   use scBound(d)
